@@ -704,7 +704,7 @@ theorem rhoOk_of_compile (uid : Nat) (src : List Char) (upd : List (Name Ã— Nat)
 
 /-! ## Non-vacuity, and the former counter-example to T-A without `DefBeforeUse` -/
 
-/-- the conclusion of T-A as a check of one compilation (hypotheses `Stratified` and serializability
+/-- the conclusion of T-A as a check of one compilation (hypotheses `InOracle` and serializability
 included; `true` when a hypothesis fails). With `withDbu` the former hypothesis `DefBeforeUse` is
 added to them: `refinesOn true` is what was provable before the repair F11, `refinesOn false` is the
 full statement. -/
@@ -716,7 +716,7 @@ def refinesOn (withDbu : Bool) (uid : Nat) (src : List Char) (upd : List (Name Ã
     | .ok sc0 =>
       match compileProg evs (applyUpdates sc0 upd) with
       | .ok (bin, scF) =>
-        if !Stratified evs then true
+        if !InOracle evs then true
         else if withDbu && !DefBeforeUse ds evs then true
         else match bin.serialize with
           | .ok _ =>
@@ -775,7 +775,7 @@ def cexSrc2 : List Char :=
 theorem exSrc_hyps :
     (match parseSource C13.exSrc with
       | some (_, evs) =>
-        Stratified evs &&
+        Stratified evs && InOracle evs &&
         (match compile 3 C13.exSrc [("bar".toList, 9)] with
           | .ok (bin, _) => bin.serialize.isOk
           | _ => false)
@@ -786,8 +786,26 @@ theorem exSrc_hyps :
 theorem cexSrc2_hyps :
     (match parseSource cexSrc2 with
       | some (ds, evs) =>
-        Stratified evs && !DefBeforeUse ds evs &&
+        Stratified evs && InOracle evs && !DefBeforeUse ds evs &&
         (match compile 1 cexSrc2 [] with
+          | .ok (bin, _) => bin.serialize.isOk
+          | _ => false)
+      | none => false) = true := by decide +kernel
+
+/-- a program with a plain bind used as a value (`Report.saved` is assigned inside the expression bound to
+`Report.out`): outside `Stratified`, inside `InOracle` -/
+def nestedSrc : List Char :=
+  ("(def (Report (out 0) (saved 0))) (when true (:= Report.out (+ (* Ack.bytes_acked 2) " ++
+   "(+ (:= Report.saved Ack.packets_acked) 1))) (report))").toList
+
+#guard refinesOn false 1 nestedSrc [] = true   -- a test (compiler-evaluated), not a theorem
+
+/-- non-vacuity of T-A on nested binds: `nestedSrc` is not stratified and satisfies every hypothesis of T-A -/
+theorem nestedSrc_hyps :
+    (match parseSource nestedSrc with
+      | some (_, evs) =>
+        !Stratified evs && InOracle evs &&
+        (match compile 1 nestedSrc [] with
           | .ok (bin, _) => bin.serialize.isOk
           | _ => false)
       | none => false) = true := by decide +kernel
